@@ -242,17 +242,22 @@ pub fn reset_repeat(r: &mut crate::rng::Rng) -> i64 {
     }
 }
 
-/// With a small probability, one operation of the history is repeated 255..258 times in a row
-/// (counters that wrap, "nothing changed since" shortcuts).
+/// With a small probability, a block of 1..4 consecutive operations of the history is repeated
+/// 254..258 times in a row (8-bit counters that wrap, "nothing changed since" shortcuts, state
+/// that drifts a little with every cycle).  16-bit wrap-around is exercised for resets only
+/// (`reset_repeat`): the history specifications are not linear in the history length.
 pub fn long_run(r: &mut crate::rng::Rng, ops: &mut Vec<i64>) {
-    if ops.len() >= 4 && r.chance(1, 40) {
-        let i = 4 * r.below((ops.len() / 4) as u64) as usize;
-        let op = [ops[i], ops[i + 1], ops[i + 2], ops[i + 3]];
-        let k = 254 + r.below(4) as usize;
-        let tail = ops.split_off(i);
-        for _ in 0..k {
-            ops.extend_from_slice(&op);
-        }
-        ops.extend(tail);
+    let n = ops.len() / 4;
+    if n == 0 || !r.chance(1, 30) {
+        return;
     }
+    let w = (1 + r.below(4) as usize).min(n);
+    let i = r.below((n - w + 1) as u64) as usize;
+    let block: Vec<i64> = ops[4 * i..4 * (i + w)].to_vec();
+    let k = 254 + r.below(5) as usize;
+    let tail = ops.split_off(4 * (i + w));
+    for _ in 0..k {
+        ops.extend_from_slice(&block);
+    }
+    ops.extend(tail);
 }
